@@ -38,6 +38,10 @@ CHECKS = {
             'Every element of the product is written by the real model() code under one working-unit configuration and read back under another; stored unit fields, stored physical values, shapes, dtypes kinds, strings/booleans, cell, origin, pbc, symbols, masses and scaled positions are compared '
             'with an independent unit-factor table. Right level: stateless serialisers + a global configuration that is enumerated (16-36 configuration pairs).', '2 C10',
             'tolerance 1e-11 relative for quantities with a unit (exact for unit None, strings, booleans); one known finding (one-element 1-D array collapses to a scalar through XML)'),
+    'C18': (EX, 'bounded-exhaustive enumeration of gamma-surface grids x cells x query forms x periods, and of SDVPN settings (tau x alpha x beta x all 16 finite-difference/fullstress flags) x disregistry profiles x x-grids, each term against an independent double-loop evaluation of its documented formula',
+            'Every element is executed on the real GammaSurface / SDVPN code: node reproduction, periodicity over integer periods, mutual inverses of the three coordinate forms for 1..7 positions (N=3 included), JSON/XML model round trips; every energy term equals an own evaluation of its formula, total = sum, the elastic term is a symmetric '
+            'bilinear form invariant under rigid shifts, solve() never raises the energy and keeps the end points, and the arctan family has its energy minimum at the classical half-width. Right level: stateless numerical code; the half-width clause holds within a stated discretisation tolerance.', '2 C18',
+            'half-width within 10 % for X/zeta >= 50 and dx <= b/10; solve() judged on capped minimisations (no convergence claim); one known finding (fullstress with cdiffstress raises)'),
     'C19': (MC, 'explicit-state BFS over Log()/read(append=True|False) histories with a list-of-tables reference model, plus crash-point enumeration: every line-boundary (and mid-row) truncation of the last block of every generated log shape',
             'Logs are synthesised by an independent generator (both memory banners, 0-3 run/minimize blocks, keyword sets with int and float columns, disjoint/overlapping/boundary-sharing step ranges, with/without timing breakdown, filler lines) and every truncation point of the last block is enumerated; '
             'records, column names, values row for row, version/date, and flatten first/last/all are compared with the generator\'s own tables; read histories of depth 3 (4 thorough) are explored to check append/reset semantics. Right level: crash points and read histories are finite and enumerated completely.', '2 C19',
